@@ -221,6 +221,65 @@ def big_callback_cases(tier):
     return out
 
 
+def contention_cases(rng, tier):
+    """Statistical families: SEVERAL contenders on one blocking operation, nobody to release them, cancelled while they are
+    parked.  blocking operation {send statement, send method, send in a loop, receive, receive method, range over the channel,
+    thread wait, sleep} x channel capacity {0, 1, 2, 5} x number of contenders x who contends {threads only, the main code too}
+    x how the threads are started.  The contenders wait for a common gate so that they reach the operation together; whether
+    two of them collide in a particular window depends on the schedule, so every case is evaluated many times in one process
+    and the first evaluation that is not clean is reported.  Judged like every other case - the call is back with the
+    context's error, nothing ticks, nothing is left behind - plus the goroutine-dump evidence of c06obs (risor code parked in
+    an operation no context can interrupt); never by timing.  Oracle only: the all-schedules model has no racing contenders."""
+    out = []
+    reps = 25 if tier == "quick" else 150
+    ops = {
+        "send": ("c <- i", 0),
+        "sendm": ("c.send(i)", 0),
+        "sendloop": ("for { c <- i }", 0),
+        "recv": ("<-c", 1),
+        "recvm": ("c.receive()", 1),
+        "range": ("for x := range c { tick() }", 1),
+        "wait": ("th.wait()", 2),
+        "sleep": ("time.sleep(30)", 2),
+    }
+    launches = {"go": "go w(%d)", "spawn": "spawn(w, %d)", "fnspawn": "w.spawn(%d)"}
+    combos = []
+    for op in ops:
+        caps = [0, 1, 2, 5] if ops[op][1] < 2 else [1]
+        for cap in caps:
+            for k in (2, 3, 6):
+                combos.append((op, cap, k))
+    for op, cap, k in combos:
+        stmt, kind = ops[op]
+        launch = rng.choice(sorted(launches))
+        main_too = rng.chance(1, 2)
+        lines = ["gate := 0", "c := chan(%d)" % cap if cap else "c := chan()", "rc := chan()"]
+        if op == "wait":
+            lines.append("th := spawn(func() { <-rc })")
+        if kind == 1:
+            # receivers: fewer values than receivers are ready (only possible with a buffer)
+            for j in range(min(cap, k - 1)):
+                lines.append("c <- %d" % j)
+        lines.append("func w(i) {\n  for gate == 0 { }\n  %s\n  tick()\n}" % stmt)
+        nthreads = k - 1 if main_too else k
+        for j in range(nthreads):
+            lines.append(launches[launch] % (j + 1))
+        lines.append("time.sleep(0.0005)")
+        lines.append("mark()")
+        lines.append("gate = 1")
+        if main_too:
+            lines.append("i := 0")
+            lines.append(stmt)
+            lines.append("tick()")
+        # whatever happens, the main code never ends by itself
+        lines.append("<-rc")
+        name = "contend-%s-cap%d-%dx-%s%s" % (op, cap, k, launch, "+main" if main_too else "")
+        for delay in (300, 3000):
+            out.append({"id": "%s/mark+%dus/0" % (name, delay), "name": name, "shape": ("K",), "src": "\n".join(lines), "instant": "mark",
+                        "delay_us": delay, "oracle_only": True, "reps": reps})
+    return out
+
+
 def malformed(rng, tier):
     """the malformed stream: sources that never get to run (or fail at once); the part of the property that still
     applies is checked - the call returns, nothing keeps running"""
@@ -284,6 +343,8 @@ def run(res):
     cov = res.coverage
     rng = C.Rng(res.seed)
     cs = cases(rng, tier) + big_callback_cases(tier)
+    # own random stream: the cases above stay as they were
+    cs += contention_cases(C.Rng(res.seed ^ 0x636f6e74656e64), tier)
     # every case twice: ended by an explicit cancel, and ended like an expired deadline (context.DeadlineExceeded)
     dl = []
     for c in cs:
@@ -321,7 +382,7 @@ def run(res):
     # thorough repeats under GOMAXPROCS 1, 2 and the default
     bad = malformed(rng, tier)
     ilines = [json.dumps({"id": c["id"], "src": c.get("src") or program(c["shape"]), "instant": c["instant"], "delay_us": c["delay_us"],
-                          "mode": c.get("mode", "cancel")}) for c in cs]
+                          "mode": c.get("mode", "cancel"), "reps": c.get("reps", 1)}) for c in cs]
     ilines += [json.dumps({"id": c["id"], "src": c["src"], "instant": c["instant"], "delay_us": 0}) for c in bad]
     procs = [None] if tier == "quick" else [None, "1", "2"]
     impl_runs = []
@@ -343,7 +404,9 @@ def run(res):
         # wall-clock observations (not back within the bound, late, goroutines not settled) depend on the load of the
         # machine: those cases are run again, one at a time, and the second observation is the one that is judged
         by_id = {json.loads(l)["id"]: l for l in ilines}
-        slow = [cid for cid, f in out.items() if not f[0].startswith("SKIPPED") and len(f) == 10
+        # (a case whose goroutine dump shows risor code parked in an uninterruptible operation is not a wall-clock observation:
+        # it is judged as it is)
+        slow = [cid for cid, f in out.items() if not f[0].startswith("SKIPPED") and len(f) == 11 and f[10] == "-"
                 and (f[0] != "true" or int(f[1]) > 2000000 or f[9] != "true")]
         for cid in slow[:100]:
             rc2, o2, e2 = run_lines(obs, [by_id[cid]], env=env)
@@ -375,7 +438,7 @@ def run(res):
             if f[0].startswith("SKIPPED"):
                 skipped += 1
                 continue
-            returned, lat_us, ec, val, t_ret, t_b, t_c, g0, g_after, settled = f
+            returned, lat_us, ec, val, t_ret, t_b, t_c, g0, g_after, settled, stuck = f
             evals += 1
             nomark = "NOMARK" in ec
             earlydone = "EARLYDONE" in ec       # the evaluation had ended before the cancellation was issued
@@ -385,12 +448,17 @@ def run(res):
             errhist[ec] = errhist.get(ec, 0) + 1
             m = model_out[c["mkey"]] if c["mkey"] else None
             info = {"case": c["id"], "ended_by": c.get("mode", "cancel"), "shape": toks(c["shape"]), "src": c.get("src") or program(c["shape"]), "instant": c["instant"], "delay_us": c["delay_us"],
-                    "gomaxprocs": gmp, "observed": {"returned": returned, "latency_us": int(lat_us), "err": ec, "value": val,
+                    "gomaxprocs": gmp, "repetitions": c.get("reps", 1), "observed": {"returned": returned, "latency_us": int(lat_us), "err": ec, "value": val,
                                                     "ticks": [int(t_ret), int(t_b), int(t_c)], "goroutines": [int(g0), int(g_after)],
                                                     "settled": settled}, "model": m}
             # ---- oracle: the property itself
             why = None
-            if returned != "true":
+            if stuck != "-":
+                info["observed"]["parked"] = stuck
+                why = ("%s after the context ended: goroutine(s) running risor code are parked in an operation that no context can interrupt "
+                       "(same state in two goroutine dumps; <goroutine>:<state>:<innermost risor frame>): %s" % (
+                           "risor.Eval has not returned" if returned != "true" else "goroutines the evaluation started are left behind", stuck))
+            elif returned != "true":
                 why = "risor.Eval did not return within 3 s of the cancellation"
             elif int(lat_us) > 2000000:
                 why = "risor.Eval returned %d us after the cancellation" % int(lat_us)
@@ -431,7 +499,7 @@ def run(res):
             if f is None or f[0].startswith("SKIPPED"):
                 continue
             bad_evals += 1
-            returned, lat_us, ec, val, t_ret, t_b, t_c, g0, g_after, settled = f
+            returned, lat_us, ec, val, t_ret, t_b, t_c, g0, g_after, settled, stuck = f
             if returned != "true" or settled != "true" or t_b != t_c:
                 oracle_viol.append({"case": c["id"], "src": c["src"], "instant": c["instant"], "delay_us": 0, "gomaxprocs": gmp,
                                     "why": "malformed program: returned=%s settled=%s ticks %s->%s" % (returned, settled, t_b, t_c)})
@@ -497,12 +565,13 @@ def replay(data):
     d = data if "src" in data else data.get("first_difference", {})
     if "src" not in d:
         return 0
-    line = json.dumps({"id": "replay", "src": d["src"], "instant": d["instant"], "delay_us": d["delay_us"]})
+    line = json.dumps({"id": "replay", "src": d["src"], "instant": d["instant"], "delay_us": d["delay_us"],
+                       "mode": d.get("ended_by", "cancel"), "reps": 4 * int(d.get("repetitions") or 1)})
     bad = 0
     for _ in range(5):
         rc, o, e = run_lines(obs, [line])
         print("implementation now: " + o.strip())
         f = o.strip().split("\t")
-        if len(f) >= 11 and (f[1] != "true" or f[3].split(" ")[0] != "ctx" or f[6] != f[7] or f[10] != "true"):
+        if len(f) >= 11 and (f[1] != "true" or f[3].split(" ")[0] != "ctx" or f[6] != f[7] or f[10] != "true" or (len(f) > 11 and f[11] != "-")):
             bad += 1
     return 1 if bad else 0
